@@ -705,6 +705,64 @@ impl Gen {
                 let b = self.arr_ty(t2, &other, 0);
                 if self.r.chance(1, 2) { vec![a, b] } else { vec![b, a] }
             }
+            "OMember" | "OIndexIn" if self.r.chance(1, 2) => {
+                // searched-in array with REPEATED rows, searched-for cells in another order than
+                // they first occur (first-occurrence law), equal and lower ranks
+                let t = if t == 'b' && self.r.chance(1, 2) { 'n' } else { t };
+                let cell: Vec<usize> = (0..self.r.below(3)).map(|_| 1 + self.r.below(2)).collect();
+                let npool = 1 + self.r.below(3);
+                let mut pool: Vec<A> = Vec::new();
+                while pool.len() < npool {
+                    let c = self.arr_ty(t, &cell, 1);
+                    if !pool.contains(&c) {
+                        pool.push(c);
+                    } else if self.r.chance(1, 4) {
+                        break;
+                    }
+                }
+                let hn = 2 + self.r.below(4);
+                let rows: Vec<usize> = (0..hn).map(|_| self.r.below(pool.len())).collect();
+                // distinct rows in the reverse order of their first occurrence, then some more
+                let mut order: Vec<usize> = Vec::new();
+                for i in &rows {
+                    if !order.contains(i) {
+                        order.push(*i);
+                    }
+                }
+                order.reverse();
+                let extra = self.r.below(3);
+                for _ in 0..extra {
+                    order.push(self.r.below(pool.len()));
+                }
+                let missing = self.arr_ty(t, &cell, 1);
+                let mut cells: Vec<A> = order.iter().map(|i| pool[*i].clone()).collect();
+                if self.r.chance(1, 3) {
+                    let at = self.r.below(cells.len() + 1);
+                    cells.insert(at, missing);
+                }
+                let lead: Vec<usize> = match self.r.below(6) {
+                    0 => {
+                        cells.truncate(1);
+                        vec![] // one cell: lower rank
+                    }
+                    1 if cells.len() % 2 == 0 => vec![2, cells.len() / 2],
+                    _ => vec![cells.len()],
+                };
+                fn pack(t: char, lead: &[usize], cell: &[usize], parts: &[A]) -> A {
+                    let mut shape = lead.to_vec();
+                    shape.extend_from_slice(cell);
+                    let d = match t {
+                        'n' => D::N(parts.iter().flat_map(|a| if let D::N(v) = &a.d { v.clone() } else { vec![] }).collect()),
+                        'c' => D::C(parts.iter().flat_map(|a| if let D::C(v) = &a.d { v.clone() } else { vec![] }).collect()),
+                        _ => D::B(parts.iter().flat_map(|a| if let D::B(v) = &a.d { v.clone() } else { vec![] }).collect()),
+                    };
+                    A { shape, d }
+                }
+                let hrows: Vec<A> = rows.iter().map(|i| pool[*i].clone()).collect();
+                let h = pack(t, &[hn], &cell, &hrows);
+                let x = pack(t, &lead, &cell, &cells);
+                vec![h, x]
+            }
             "OMember" | "OIndexIn" => {
                 let mut hs = self.shape_rank(1, 3);
                 if self.r.chance(1, 15) {
